@@ -17,7 +17,7 @@ import (
 
 func init() {
 	register(&core.Rule{ID: "L5", Min: 2, Arm64: true,
-		Doc: "Parser mode on the Load path: for every Node method that Load()/LoadAll() calls for a lazy node (the callees in Load's switch arms; today loadAllIndex, loadAllKey), on every enumerated path that reaches the parser run (`parser.decodeArray` / `parser.decodeObject`), the parser flags assigned `true` before it include noLazy or loadOnce and do not include skipValue: otherwise the remaining children are created raw and unlocked, and concurrent readers parse them in place, racing on the node.",
+		Doc: "Parser mode on the Load path: for every Node method reachable from Load()/LoadAll() (callee closure inside package ast, three levels) that starts a parser run itself (today loadAllIndex, loadAllKey), on every enumerated path that reaches the parser run (`parser.decodeArray` / `parser.decodeObject`), the parser flags assigned `true` before it include noLazy or loadOnce and do not include skipValue: otherwise the remaining children are created raw and unlocked, and concurrent readers parse them in place, racing on the node.",
 		Run: runL5})
 }
 
@@ -30,29 +30,47 @@ func runL5(c *core.Ctx) {
 		return
 	}
 	c.Analysed(core.FuncName(pk, load))
-	// loaders: Node methods called as statements inside case clauses of Load
+	// loaders: the Node methods reachable from Load (callee closure inside the package, three
+	// levels) that start a parser run themselves
 	var loaders []*ast.FuncDecl
-	seen := map[string]bool{}
-	ast.Inspect(load.Body, func(n ast.Node) bool {
-		cc, ok := n.(*ast.CaseClause)
-		if !ok {
-			return true
-		}
-		for _, st := range cc.Body {
-			ast.Inspect(st, func(x ast.Node) bool {
-				if call, ok := x.(*ast.CallExpr); ok {
-					if o := p.Callee(call); o != nil && o.Pkg() == pk.Types {
-						if fd := core.FuncDecl(pk, "Node", o.Name()); fd != nil && fd.Body != nil && !seen[o.Name()] {
-							seen[o.Name()] = true
-							loaders = append(loaders, fd)
-						}
-					}
+	seen := map[string]bool{"Load": true}
+	runsParser := func(fd *ast.FuncDecl) bool {
+		hit := false
+		ast.Inspect(fd.Body, func(n ast.Node) bool {
+			if call, ok := n.(*ast.CallExpr); ok {
+				if se, ok := call.Fun.(*ast.SelectorExpr); ok && (se.Sel.Name == "decodeArray" || se.Sel.Name == "decodeObject") {
+					hit = true
 				}
+			}
+			return !hit
+		})
+		return hit
+	}
+	var walk func(fd *ast.FuncDecl, depth int)
+	walk = func(fd *ast.FuncDecl, depth int) {
+		ast.Inspect(fd.Body, func(n ast.Node) bool {
+			call, ok := n.(*ast.CallExpr)
+			if !ok {
 				return true
-			})
-		}
-		return true
-	})
+			}
+			o := p.Callee(call)
+			if o == nil || o.Pkg() != pk.Types || seen[o.Name()] {
+				return true
+			}
+			callee := core.FuncDecl(pk, "Node", o.Name())
+			if callee == nil || callee.Body == nil {
+				return true
+			}
+			seen[o.Name()] = true
+			if runsParser(callee) {
+				loaders = append(loaders, callee)
+			} else if depth < 3 {
+				walk(callee, depth+1)
+			}
+			return true
+		})
+	}
+	walk(load, 0)
 	if len(loaders) == 0 {
 		c.Undecided("ast.(Node).Load/loaders", load.Pos(), "Load calls no loader in its switch arms")
 		return
